@@ -49,6 +49,11 @@ func (r *run) loadFrom(addr value) value {
 		if p == nil {
 			panic(runtimePanic("invalid memory address or nil pointer dereference"))
 		}
+		if r.tracing {
+			if loc, ok := r.watch[p]; ok {
+				r.traceEvent("rd:" + loc)
+			}
+		}
 		return copyVal(*p)
 	case *symptr:
 		var res *Term
@@ -70,6 +75,11 @@ func (r *run) storeTo(addr value, v value) {
 	case *value:
 		if p == nil {
 			panic(runtimePanic("invalid memory address or nil pointer dereference"))
+		}
+		if r.tracing {
+			if loc, ok := r.watch[p]; ok {
+				r.traceEvent("wr:" + loc)
+			}
 		}
 		store(p, v)
 		return
